@@ -1,4 +1,5 @@
 #include "recorder.hpp"
+#include "sim.hpp"
 
 namespace {
 Recorder* R(void* c) { return (Recorder*)c; }
@@ -8,7 +9,7 @@ void str(void* c, int slot, cbor_data d, uint64_t len) {
   Recorder* r = R(c); RecEv e; e.slot = slot; e.arg = len;
   e.ptr_inside = d >= r->win && d <= r->win + r->win_len && len <= (uint64_t)(r->win + r->win_len - d);
   e.ptr_off = (uint64_t)(d - r->win);
-  if (e.ptr_inside) e.payload.assign(d, d + len);
+  if (e.ptr_inside && !g_rec_no_payload) e.payload.assign(d, d + len);
   r->evs.push_back(std::move(e));
 }
 void cb_uint8(void* c, uint8_t v) { simple(c, SL_UINT8, v); }
@@ -59,7 +60,7 @@ RecEv expected_event(const Tok& t, const uint8_t* p) {
     case TK_UINT: e.slot = wslot(SL_UINT8, SL_UINT16, SL_UINT32, SL_UINT64); break;
     case TK_NEGINT: e.slot = wslot(SL_NEGINT8, SL_NEGINT16, SL_NEGINT32, SL_NEGINT64); break;
     case TK_BSTR: case TK_TSTR:
-      e.slot = t.kind == TK_BSTR ? SL_BSTR : SL_TSTR; e.ptr_off = t.head_len; e.payload.assign(p + t.head_len, p + t.head_len + t.arg); break;
+      e.slot = t.kind == TK_BSTR ? SL_BSTR : SL_TSTR; e.ptr_off = t.head_len; if (!g_rec_no_payload) e.payload.assign(p + t.head_len, p + t.head_len + t.arg); break;
     case TK_BSTR_START: e.slot = SL_BSTR_START; e.arg = 0; break;
     case TK_TSTR_START: e.slot = SL_TSTR_START; e.arg = 0; break;
     case TK_ARRAY: e.slot = SL_ARRAY; break;
